@@ -148,8 +148,67 @@ func (x *Exec) intrinsic(fn *ssa.Function, name string, args []Value, g *Term, s
 				return c.Apply("vx.floorlog2.uint", FP64, a.A[0]), nil, true
 			}
 		}
+	case "golang.org/x/sync/semaphore":
+		// semaphore.Weighted{size, cur, ...}: single-thread view on the real counters. An Acquire
+		// that cannot succeed blocks; in the sequentialised harnesses nobody else can release at that
+		// point, so it is reported as a "blocks forever" obligation and the path ends.
+		switch short {
+		case "NewWeighted":
+			et := fn.Signature.Results().At(0).Type().(*types.Pointer).Elem()
+			o := x.newObject(et, x.zero(et), "semaphore")
+			x.store(&PtrV{Obj: o, Path: []PathElem{{Field: 0}}}, args[0], c.True)
+			return &PtrV{Obj: o}, nil, true
+		case "Acquire", "TryAcquire":
+			x.modeled["semaphore.Weighted: real size/cur counters, blocking Acquire = blocks-forever obligation (no other releaser in the sequentialised harness)"]++
+			n := args[len(args)-1].(*Term)
+			size := x.load(x.ptrExtend(args[0], PathElem{Field: 0})).(*Term)
+			curP := x.ptrExtend(args[0], PathElem{Field: 1})
+			cur := x.load(curP).(*Term)
+			ok := c.Sle(c.Add(cur, n), size)
+			if short == "TryAcquire" {
+				x.store(curP, c.Add(cur, n), c.And(g, ok))
+				return ok, nil, true
+			}
+			id := "blocks-forever: semaphore Acquire with no possible releaser @" + x.posStr(site)
+			if v, has := x.opts["deadlock-id"]; has {
+				id = v
+			}
+			x.addOblig("assert", id, c.And(g, c.Not(ok)), site)
+			x.store(curP, c.Add(cur, n), c.And(g, ok))
+			return &IfaceV{}, c.And(g, c.Not(ok)), true
+		case "Release":
+			n := args[1].(*Term)
+			curP := x.ptrExtend(args[0], PathElem{Field: 1})
+			cur := x.load(curP).(*Term)
+			x.runtimeCheck("semaphore-released-more-than-held", g, c.Slt(c.Sub(cur, n), c.Const(64, 0)), site)
+			x.store(curP, c.Sub(cur, n), g)
+			return nil, nil, true
+		}
+	case "context":
+		if short == "TODO" || short == "Background" {
+			return &IfaceV{}, nil, true
+		}
 	case "sync":
 		switch name {
+		case "(*sync.Mutex).Lock":
+			// single-thread view: the mutex's own state word records "held by this goroutine";
+			// locking it again can never succeed: self-deadlock (the engine hangs)
+			st := x.ptrExtend(args[0], PathElem{Field: 0})
+			cur := x.load(st).(*Term)
+			x.modeled["sync.Mutex: state word = held by the modelled goroutine; re-locking is a deadlock obligation"]++
+			did := "deadlock: sync.Mutex locked while already held by the same goroutine @" + x.posStr(site)
+			if v, ok := x.opts["deadlock-id"]; ok {
+				did = v
+			}
+			x.addOblig("assert", did, c.And(g, c.Ne(cur, c.Const(32, 0))), site)
+			x.store(st, c.Const(32, 1), g)
+			return nil, nil, true
+		case "(*sync.Mutex).Unlock":
+			st := x.ptrExtend(args[0], PathElem{Field: 0})
+			cur := x.load(st).(*Term)
+			x.runtimeCheck("unlock-of-unlocked-mutex", g, c.Eq(cur, c.Const(32, 0)), site)
+			x.store(st, c.Const(32, 0), g)
+			return nil, nil, true
 		case "(*sync.WaitGroup).Add", "(*sync.WaitGroup).Done", "(*sync.WaitGroup).Wait":
 			x.modeled["sync.WaitGroup: no-op (goroutines inlined sequentially)"]++
 			return nil, nil, true
@@ -276,6 +335,29 @@ func (x *Exec) vxIntrinsic(fn *ssa.Function, short string, args []Value, g *Term
 	case "vxUFBool":
 		nm := x.knownStr(args[0], short)
 		return c.Apply("uf."+nm, BoolSort, args[1].(*Term))
+	case "vxSemFree":
+		sp := args[0]
+		if iv, ok := sp.(*IfaceV); ok {
+			sp = iv.V
+		}
+		return c.Eq(x.load(x.ptrExtend(sp, PathElem{Field: 1})).(*Term), c.Const(64, 0))
+	case "vxBoolN", "vxI64N":
+		i, ok := args[1].(*Term)
+		if !ok || !i.IsConst() {
+			// the occurrence counter is symbolic (incremented under guards): fall back to a fresh variable
+			if short == "vxBoolN" {
+				return c.Fresh(x.knownStr(args[0], short), BoolSort)
+			}
+			return c.Fresh(x.knownStr(args[0], short), BV(64))
+		}
+		nm := fmt.Sprintf("%s[%d]", x.knownStr(args[0], short), i.SignedVal())
+		if short == "vxBoolN" {
+			return x.nondetVar(nm, BoolSort)
+		}
+		return x.nondetVar(nm, BV(64))
+	case "vxMutexFree":
+		st := x.ptrExtend(args[0], PathElem{Field: 0})
+		return c.Eq(x.load(st).(*Term), c.Const(32, 0))
 	case "vxPrefer":
 		// soft constraint used only to pick a replay-friendly counterexample (never to decide)
 		x.prefers = append(x.prefers, c.Implies(g, args[0].(*Term)))
